@@ -71,6 +71,17 @@ def gen_case(rng):
         for r in scn.repos:
             for c in r["version"]["codenames"].values():
                 c["compressions"] = ["xz", "gz"]
+    elif not case.get("twin") and rng.random() < 0.15:
+        # the preferred variant stays LISTED but the upstream no longer has it (404 on every .xz name and its
+        # by-hash aliases): the run falls back to .gz while skel still holds the previous version's .xz
+        case["variant_fallback"] = True
+        case["prior"] = True
+        case["switch"] = False
+        case["local_fault"] = None
+        case["path_fault"] = False
+        for r in scn.repos:
+            for c in r["version"]["codenames"].values():
+                c["compressions"] = ["xz", "gz"]
     return scn, case
 
 
@@ -92,9 +103,21 @@ def run_case(rep, scn, case, sb: Path, tag):
             for r in scn2.repos:
                 for c in r["version"]["codenames"].values():
                     c["compressions"] = [rng.choice(["gz", "bz2"])]
+        if case.get("variant_fallback"):
+            for r in scn2.repos:
+                for c in r["version"]["codenames"].values():
+                    c["compressions"] = ["xz", "gz"]
     files2 = R.files_of(scn2)
     served = mutate_mid_run(rng, scn2, files2) if case["switch"] else files2
     plan = R.gen_fault_plan(rng, scn2, served)
+    if case.get("variant_fallback"):
+        plan = {}
+        for r in scn2.repos:
+            fs = served[r["url"]]
+            xz = {fs[q][0] for q in fs if q.endswith(".xz") and "/by-hash/" not in q and q.startswith("dists/")}
+            for q in fs:
+                if q.startswith("dists/") and fs[q][0] in xz and (q.endswith(".xz") or "/by-hash/" in q):
+                    plan.setdefault(r["url"], {})[q] = {"first": [], "rest": "missing"}
     if case.get("ignored_twin"):
         plan = {}
         for r in scn2.repos:
